@@ -32,7 +32,10 @@ REAL_VS_STUB = {"real": ["pddl_plus_parser.lisp_parsers.PDDLTokenizer (file and 
 ATOMS = ["a", "b", "define", ":init", "?x", "-", "obj1", "=", "3.5", "-2", "p_q", "at-robby", "1e3", "not",
          # non-ASCII tokens, including letters whose case folding differs from lower-casing (ß, final sigma, long s,
          # ligatures): lower-casing must keep them distinct from their look-alikes
-         "straße", "strasse", "maß", "mass", "ςx", "σx", "ﬁn", "fin", "ſt", "st", "é", "ü1"]
+         "straße", "strasse", "maß", "mass", "ςx", "σx", "ﬁn", "fin", "ſt", "st", "é", "ü1",
+         # tokens that begin with a character other than a letter, digit, '?', ':' or '-' (round 15: PDDL+'s #t and the
+         # operator tokens): wherever the layout puts them - first on a line included - they are ordinary tokens
+         "#t", "#x-1", "*", "/", "+", "<=", ">=", ".5", "@a", "_u", "%p", "!", "'q", "\"w", "[k]", "a#"]
 
 
 def gen_tree(t, depth, budget):
